@@ -64,7 +64,10 @@ def build():
         ep_of(*old(self), endpoint_name@) is None ==> (ep_of(*final(self), endpoint_name@) matches Some(ep) && ep.account_url@.len() == 0
             && forall|n: Seq<char>| n != endpoint_name@ ==> ep_of(*final(self), n) == ep_of(*old(self), n)), //@C11.new_endpoint_starts_unregistered
 """, rewrites=[("T-MAP", r"self\.endpoints\s*\.entry\(endpoint_name\.to_string\(\)\)\s*\.or_insert_with\(AccountEndpoint::new\);",
-                "crate::shims::eps_entry_or_insert_with(&mut self.endpoints, endpoint_name.to_string(), || -> (e__: AccountEndpoint) ensures e__.account_url@.len() == 0 { AccountEndpoint::new() });")])})
+                "crate::shims::eps_entry_or_insert_with(&mut self.endpoints, endpoint_name.to_string(), || -> (e__: AccountEndpoint) ensures e__.account_url@.len() == 0 { AccountEndpoint::new() });", None),
+               # the other way of putting a record into the map: H.insert(K, V) replaces whatever was there
+               ("T-MAP", r"self\.endpoints\s*\.insert\(endpoint_name\.to_string\(\), (?P<v>[^;]*)\);",
+                lambda m: f"crate::shims::eps_insert(&mut self.endpoints, endpoint_name.to_string(), {m.group('v')});", None)])})
     def setter(field, value_spec, label, extra=""):
         others = [f for f in ["creation_date", "account_url", "orders_url", "key_hash", "contacts_hash", "external_account_hash"] if f != field]
         keep = " && ".join(f"n.{f} == o.{f}" for f in others)
@@ -72,7 +75,7 @@ def build():
     ensures
         // only this endpoint's `{field}` changes: the other endpoints, the keys (current and superseded), the contacts stay as they are
         r is Ok ==> (ep_of(*old(self), endpoint_name@) matches Some(o) && ep_of(*final(self), endpoint_name@) matches Some(n)
-            && only_endpoint_changed(*old(self), *final(self), endpoint_name@, n) && {keep} && {value_spec}), //@C11.{label}
+            && only_endpoint_changed(*old(self), *final(self), endpoint_name@, n) && {keep} && {value_spec}), //@C11.{label},C04.{label}
         r is Err ==> same_but_endpoints(*old(self), *final(self)) && eps_map(final(self).endpoints) == eps_map(old(self).endpoints), {extra}
 """
     u.verify(A, "Account::set_account_url", "account", props=["C11"], fns={"set_account_url": FnSpec(ret="r", sig=setter("account_url", "n.account_url@ == account_url@", "account_url_stored_for_this_endpoint_only"))})
@@ -216,6 +219,11 @@ pub mod shims {
         ensures eps_map(*old(h)).dom().contains(k@) ==> eps_map(*final(h)) == eps_map(*old(h)),
             !eps_map(*old(h)).dom().contains(k@) ==> exists|v: crate::account::AccountEndpoint| f.ensures((), v) && eps_map(*final(h)) == eps_map(*old(h)).insert(k@, v),
     { h.entry(k).or_insert_with(f); }
+    // H.insert(K, V): the key now has V, whatever it had
+    #[verifier::external_body]
+    pub fn eps_insert(h: &mut std::collections::HashMap<String, crate::account::AccountEndpoint>, k: String, v: crate::account::AccountEndpoint)
+        ensures eps_map(*final(h)) == eps_map(*old(h)).insert(k@, v),
+    { h.insert(k, v); }
     pub struct Directory { pub new_account: String, pub key_change: String }
     pub struct Endpoint { pub name: String, pub dir: Directory, pub tos_agreed: bool }
     }
@@ -330,7 +338,7 @@ pub fn register_account(endpoint: &mut Endpoint, account: &mut Account, Tracked(
 pub fn update_account_contacts(endpoint: &mut Endpoint, account: &mut Account, Tracked(w): Tracked<&mut World>) -> (r: Result<(), Error>)
     requires
         // signed with the account's current key: that must be the key the CA has on record
-        key_fp(old(account).current_key) == old(w).ca_key, //@C11.contact_update_is_signed_by_the_key_the_ca_holds
+        key_fp(old(account).current_key) == old(w).ca_key, //@C11.contact_update_is_signed_by_the_key_the_ca_holds,C04.contact_update_is_signed_by_the_key_the_ca_holds
         // only for an account that is registered on this endpoint, once its key is in step
         ep_of(*old(account), old(endpoint).name@) matches Some(ep) && ep.account_url@.len() > 0 && ep.key_hash@ == old(w).ca_key,
     ensures final(endpoint).name == old(endpoint).name, same_config(*final(account), *old(account)),
